@@ -7,6 +7,7 @@ TRACE = {
     "C03": (["P_C03"], []),
     "C04": (["P_C04"], []),
     "C05": (["P_C05"], []),
+    "C06": (["P_C06"], []),
     "C07": (["P_C07"], []),
     "C08": (["P_C08", "P_C05"], []),  # "while a canary is paused ... elapsed time does not promote it" is the promotion rule
     "C09": (["P_C09", "P_C09s"], []),
@@ -18,6 +19,7 @@ TRACE = {
     "C16": (["P_C16"], []),
     "C17": (["P_C17"], []),
     "C11": ([], []),
+    "C18": (["P_C18", "P_C10"], []),
     "C19": (["P_C19"], []),
 }
 
@@ -48,6 +50,7 @@ MC = {
     "C03": {"quick": [("rollout_q", ["M_C03"], [])], "thorough": [("rollout_t", ["M_C03"], []), ("rollout_mu2_t", ["M_C03"], [])]},
     "C04": {"quick": [("canary_q", ["M_C04"], [])], "thorough": [("canary_t", ["M_C04"], [])]},
     "C05": {"quick": [("canary_q", ["M_C05"], [])], "thorough": [("canary_t", ["M_C05"], []), ("canary_manual_q", ["M_C05"], [])]},
+    "C06": {"quick": [("canary_q", ["M_C06"], [])], "thorough": [("canary_t", ["M_C06"], [])]},
     "C07": {"quick": [("canary_q", ["M_C07"], [])], "thorough": [("canary_t", ["M_C07"], [])]},
     "C08": {"quick": [("rollout_q", ["M_C08"], [])], "thorough": [("rollout_t", ["M_C08"], []), ("canary_t", ["M_C08"], [])]},
     "C09": {"quick": [("rollout_q", ["M_C09"], [])], "thorough": [("rollout_t", ["M_C09"], [])]},
@@ -61,6 +64,8 @@ MC = {
 
 # ---- B3: vector generators (module, constants of the cfg per tier, formulas that judge the recorded steps) ----
 B3 = {
+    "C18": [dict(gen="Gen_Settings", quick="MaxSettings = 3\n  AllOrders = FALSE", thorough="MaxSettings = 3\n  AllOrders = TRUE", props=["P_C18", "P_C10"])],
+    "C06": [dict(gen="Gen_Canary", quick="Full = FALSE", thorough="Full = TRUE", props=["P_C06", "P_C08", "P_C14"])],
     "C03": [dict(gen="Gen_Limits",
                  quick='MaxN = 4\n  Reps = 2\n  MaxUs = {"0", "1", "2", "50%"}\n  MaxSFs = {"0", "1"}\n  Variants <- VariantsQuick',
                  thorough='MaxN = 5\n  Reps = 3\n  MaxUs = {"0", "1", "2", "3", "25%", "50%", "100%"}\n  MaxSFs = {"0", "1", "50%"}\n  Variants <- VariantsThorough',
